@@ -560,3 +560,60 @@ func (p *Prog) withHelpers(fn *ssa.Function, depth int) []*ssa.Function {
 	walk(fn, 0)
 	return out
 }
+
+// staticCallSites: the plain static calls of fn in its package; exact=false when fn is also referenced in another
+// way (go, defer, function value), in which case the list does not describe every execution of fn.
+func (p *Prog) staticCallSites(fn *ssa.Function) (sites []*ssa.Call, exact bool) {
+	exact = true
+	if fn.Pkg == nil {
+		return nil, false
+	}
+	for _, f := range p.allFns {
+		root := f
+		for root.Parent() != nil {
+			root = root.Parent()
+		}
+		if root.Pkg != fn.Pkg {
+			continue
+		}
+		eachInstr(f, func(in ssa.Instruction) {
+			for _, op := range in.Operands(nil) {
+				if op == nil || *op != ssa.Value(fn) {
+					continue
+				}
+				if c, ok := in.(*ssa.Call); ok && c.Call.Value == ssa.Value(fn) {
+					sites = append(sites, c)
+				} else {
+					exact = false
+				}
+			}
+		})
+	}
+	if fn.Object() != nil && fn.Object().Exported() {
+		exact = false // callable from outside the package
+	}
+	return
+}
+
+// guardedHereOrAtCallers: `in` executes only under a branch condition satisfying pred — in its own function, or,
+// when it sits in an unexported helper, at every call site of that helper (transitively up to depth).
+func (p *Prog) guardedHereOrAtCallers(in ssa.Instruction, pred func(Cond) bool, depth int) bool {
+	for _, cd := range condsAtInstr(in) {
+		if pred(normCond(cd)) {
+			return true
+		}
+	}
+	if depth <= 0 {
+		return false
+	}
+	sites, exact := p.staticCallSites(in.Parent())
+	if !exact || len(sites) == 0 {
+		return false
+	}
+	for _, c := range sites {
+		if !p.guardedHereOrAtCallers(c, pred, depth-1) {
+			return false
+		}
+	}
+	return true
+}
